@@ -5,6 +5,7 @@ package main
 import (
 	"context"
 	"encoding/hex"
+	"encoding/json"
 	"errors"
 	"fmt"
 	"math/big"
@@ -201,6 +202,17 @@ func newVerifySetup(r *Rng, later bool, nclaims int) *verifySetup {
 			_ = is.claims.Add(context.Background(), r.BigBelow(poseidonQ()), r.BigBelow(poseidonQ()))
 		}
 		_ = is.roots.Add(context.Background(), is.claims.Root().BigInt(), big.NewInt(0))
+		// other credentials of this issuer are revoked, some with nonces that share many low bits with the auth claim's:
+		// the non-revocation proof of the auth claim then has siblings and depends on every bit of the nonce it is checked for
+		for i := 0; i < r.Intn(5); i++ {
+			x := is.authNonce ^ (1 << uint(r.Intn(40))) // (keys agreeing on the low 40 bits cannot both be stored)
+			if r.Chance(30) {
+				x = r.U64()
+			}
+			if x != is.authNonce {
+				_ = is.revs.Add(context.Background(), new(big.Int).SetUint64(x), big.NewInt(0))
+			}
+		}
 	}
 	return s
 }
@@ -447,16 +459,27 @@ func bjjFaults() []bjjFault {
 			}
 			p.IssuerData.CredentialStatus = map[string]any{"id": "https://status.example/auth", "type": "SparseMerkleTreeProof", "revocationNonce": n}
 		}},
+		{name: "unusable-root", apply: func(s *verifySetup, p *verifiable.BJJSignatureProof2021, x *bjjCtx, r *Rng) {
+			bad := unusableRoot(r)
+			switch r.Intn(3) {
+			case 0:
+				p.IssuerData.State.RevocationTreeRoot = &bad
+			case 1:
+				p.IssuerData.State.RootOfRoots = &bad
+			default:
+				p.IssuerData.State.ClaimsTreeRoot = &bad
+			}
+		}},
 		{name: "resolver-error", apply: func(s *verifySetup, p *verifiable.BJJSignatureProof2021, x *bjjCtx, r *Rng) { x.res.mode = "error" }},
 		{name: "resolver-no-state-info", apply: func(s *verifySetup, p *verifiable.BJJSignatureProof2021, x *bjjCtx, r *Rng) { x.res.mode = "noinfo" }},
 		{name: "status-nonce-mismatch", apply: func(s *verifySetup, p *verifiable.BJJSignatureProof2021, x *bjjCtx, r *Rng) {
-			p.IssuerData.CredentialStatus = map[string]any{"id": "https://status.example/auth", "type": "SparseMerkleTreeProof", "revocationNonce": float64(s.is.authNonce + 1)}
+			p.IssuerData.CredentialStatus = map[string]any{"id": "https://status.example/auth", "type": "SparseMerkleTreeProof", "revocationNonce": nonceNeighbour(s.is.authNonce)}
 		}},
 		{name: "status-missing", apply: func(s *verifySetup, p *verifiable.BJJSignatureProof2021, x *bjjCtx, r *Rng) {
 			p.IssuerData.CredentialStatus = nil
 		}},
 		{name: "status-without-type", apply: func(s *verifySetup, p *verifiable.BJJSignatureProof2021, x *bjjCtx, r *Rng) {
-			p.IssuerData.CredentialStatus = map[string]any{"id": "https://status.example/auth", "revocationNonce": float64(s.is.authNonce)}
+			p.IssuerData.CredentialStatus = map[string]any{"id": "https://status.example/auth", "revocationNonce": s.is.authNonce}
 		}},
 		{name: "status-type-unregistered", apply: func(s *verifySetup, p *verifiable.BJJSignatureProof2021, x *bjjCtx, r *Rng) { x.unregister = true }},
 		{name: "status-resolver-error", apply: func(s *verifySetup, p *verifiable.BJJSignatureProof2021, x *bjjCtx, r *Rng) { x.statusErr = true }},
@@ -541,13 +564,26 @@ func emitBJJ(out *Out, r *Rng, f bjjFault, later bool) {
 	switch cs := p.IssuerData.CredentialStatus.(type) {
 	case map[string]any:
 		nv, present := cs["revocationNonce"]
-		n, okN := nv.(float64)
+		var n uint64
+		okN := true
+		switch t := nv.(type) {
+		case float64:
+			n = uint64(t)
+		case uint64:
+			n = t
+		default:
+			okN = false
+		}
 		if !present {
 			n, okN = 0, true // encoding/json leaves the field at its zero value
 		}
 		_, okT := cs["type"].(string)
+		if okN {
+			// VerifyProof re-marshals the proof: the status entry is read back through a generic decode (float64)
+			n, okN = nonceThroughJSON(n)
+		}
 		if okN && okT {
-			in["statusNonce"] = J{"ok": fmt.Sprint(uint64(n))}
+			in["statusNonce"] = J{"ok": fmt.Sprint(n)}
 		} else {
 			in["statusNonce"] = J{"err": "err"}
 		}
@@ -580,8 +616,14 @@ func emitBJJ(out *Out, r *Rng, f bjjFault, later bool) {
 	if accepted != benign {
 		if benign {
 			why = append(why, fmt.Sprintf("a properly issued and signed credential was rejected (%s): %v", f.name, err))
+			if jsonLossyNonce(s.is.authNonce) && strings.Contains(fmt.Sprint(err), "revocation nonce mismatch") {
+				c.Tags = append(c.Tags, "shape:json-number-nonce-beyond-float64")
+			}
 		} else {
 			why = append(why, fmt.Sprintf("verification succeeded although the bundle carries the fault %q", f.name))
+			if m, ok := nonceThroughJSON(nonceNeighbour(s.is.authNonce)); f.name == "status-nonce-mismatch" && ok && m == s.is.authNonce {
+				c.Tags = append(c.Tags, "shape:json-number-nonce-beyond-float64")
+			}
 		}
 	}
 	if errClass(err) == "panic" || errClass(err) == "hang" {
@@ -590,12 +632,41 @@ func emitBJJ(out *Out, r *Rng, f bjjFault, later bool) {
 	if f.name == "auth-claim-revoked" && impl["err"] != "revoked" {
 		why = append(why, fmt.Sprintf("a revoked auth claim must give the distinguished 'revoked' error, got %v", err))
 	}
+	if len(why) > 0 && jsonLossyNonce(s.is.authNonce) && strings.Contains(fmt.Sprint(err), "revocation nonce mismatch") {
+		c.Tags = append(c.Tags, "shape:json-number-nonce-beyond-float64")
+	}
 	c.Prop = propOf(why)
 	setCurrent(nil, nil)
 	out.Emit(c)
+	if f.name == "none" {
+		// the same credential after it has travelled as JSON (encode, decode): a properly issued credential still verifies
+		var w2 []string
+		tags := []string{"fault:none", "json-decoded"}
+		enc, merr := json.Marshal(s.vc)
+		var vc2 verifiable.W3CCredential
+		if merr == nil {
+			merr = json.Unmarshal(enc, &vc2)
+		}
+		impl2 := J{"err": "err"}
+		if merr != nil {
+			w2 = append(w2, "credential does not survive encode/decode: "+merr.Error())
+		} else {
+			c2 := 0
+			e2 := runVerify(&vc2, verifiable.BJJSignatureProofType, x.res.resolver(&c2), reg, s.c.loader())
+			impl2 = classify(e2)
+			if e2 != nil {
+				w2 = append(w2, fmt.Sprintf("a properly issued and signed credential is rejected after a JSON encode/decode (auth nonce %d): %v", s.is.authNonce, e2))
+				if jsonLossyNonce(s.is.authNonce) && strings.Contains(fmt.Sprint(e2), "revocation nonce mismatch") {
+					tags = append(tags, "shape:json-number-nonce-beyond-float64")
+				}
+			}
+		}
+		out.Emit(Case{Op: "none", In: J{"fault": "none", "authNonce": fmt.Sprint(s.is.authNonce)}, Impl: impl2, Prop: propOf(w2), Tags: tags, NT: true})
+	}
 }
 
 func genC07(out *Out, r *Rng, tier string, n int, shard int) {
+	lossyNonces = true
 	faults := bjjFaults()
 	for i := 0; i < n; i++ {
 		for _, f := range faults {
